@@ -271,11 +271,11 @@ fn drop_probe() -> Option<Failure> {
     std::thread::sleep(std::time::Duration::from_millis(600));
     hold.store(false, Ordering::Release);
     let t0 = std::time::Instant::now();
-    while !done.load(Ordering::Acquire) && t0.elapsed() < std::time::Duration::from_secs(5) { std::thread::sleep(std::time::Duration::from_millis(5)); }
+    while !done.load(Ordering::Acquire) && t0.elapsed() < std::time::Duration::from_secs(30) { std::thread::sleep(std::time::Duration::from_millis(5)); }
     fjall::verif::pause::set(None);
     if done.load(Ordering::Acquire) { let _ = t.join(); None } else {
         std::mem::forget(scratch);
-        Some(Failure { kind: "impl-vs-oracle", detail: "drop(Database) did not return within 5 s after its last worker thread left (worker held for 600 ms after taking its Close message)".into() })
+        Some(Failure { kind: "impl-vs-oracle", detail: "drop(Database) did not return within 30 s after its last worker thread left (worker held for 600 ms after taking its Close message)".into() })
     }
 }
 
